@@ -485,7 +485,7 @@ def run_property(pid, tier, seed, out=sys.stdout):
         h.update(solve.NEW_HINTS)
         json.dump(h, open(solve.HINTS_FILE, 'w'), indent=0, sort_keys=True)
     # development runs against a scratch copy (PYVC_REPO_SRC) must not overwrite the evidence of /repo
-    evdir = os.path.join(VERIF, 'evidence') if not os.environ.get('PYVC_REPO_SRC') else os.environ.get('PYVC_EVIDENCE_DIR', '/tmp/pyvc_evidence')
+    evdir = os.environ.get('PYVC_EVIDENCE_DIR') or (os.path.join(VERIF, 'evidence') if not os.environ.get('PYVC_REPO_SRC') else '/tmp/pyvc_evidence')
     os.makedirs(evdir, exist_ok=True)
     json.dump(ev, open(os.path.join(evdir, pid + '.json'), 'w'), indent=1, default=str)
 
